@@ -134,6 +134,35 @@ def run_harnesses(scratch, src, harnesses, jobs=None, global_timeout=None, logna
         for r in res.values():
             if r.status in ("missing", "error"):
                 r.status = "timeout"
+    # second pass for harnesses that timed out: CBMC in all-properties mode reports nothing before it has decided every
+    # property, so a counterexample found in milliseconds can hide behind one slow property.  Re-run each such harness
+    # with `--stop-on-fail` (old output format: Kani's parser does not understand that mode) under a short cap; a violated
+    # assertion (not a kani::cover!, which CBMC also reports as "failed" when it is satisfiable) is a real failure.
+    for name, r in res.items():
+        if r.status != "timeout" or os.environ.get("VERIF_NO_SECOND_PASS"):
+            continue
+        h = r.h
+        cmd2 = ["cargo", "kani", "--lib", "-Z", "stubbing", "-Z", "unstable-options", "--harness-timeout", "240s", "--output-format", "old",
+                "--target-dir", os.path.join(scratch, "target"), "--exact", "--harness", h.fullname if hasattr(h, "fullname") else h.name,
+                "--no-assertion-reach-checks", "--cbmc-args", "--stop-on-fail"]
+        rc2, out2, wall2 = common.run(cmd2, cwd=src, timeout=400, mem_gb=KANI_MEM_GB, logfile=os.path.join(scratch, "kani2_%s.log" % name))
+        wall += wall2
+        L = out2.splitlines()
+        ix = [k for k, l in enumerate(L) if l.startswith("Violated property")]
+        if "VERIFICATION FAILED" in out2 and ix:
+            loc = L[ix[0] + 1].strip() if ix[0] + 1 < len(L) else ""
+            m = re.search(r"file (\S+) .*line (\d+)", loc)
+            is_cover = False
+            if m:
+                try:
+                    src_line = open(m.group(1)).read().split("\n")[int(m.group(2)) - 1]
+                    is_cover = "cover!" in src_line
+                except Exception:
+                    is_cover = False
+            if m and not is_cover:
+                r.status = "failed"
+                r.failed_checks = ["(second pass, --stop-on-fail) violated property at %s:%s" % (m.group(1), m.group(2))]
+                r.raw = (r.raw + "\n--- second pass ---\n" + "\n".join(L[ix[0]:ix[0] + 6]))[-6000:]
     compile_failed = ("could not compile" in out) or ("Failed to execute cargo" in out) \
         or ("Failed to compile" in out) or ("error: internal compiler error" in out)
     return res, out, wall, compile_failed
